@@ -2,3 +2,6 @@
 import VirtioVerif.Model.Proto
 import VirtioVerif.Model.Layout
 import VirtioVerif.Props.C06
+import VirtioVerif.Model.Queue
+import VirtioVerif.Lemmas.QueueFrame
+import VirtioVerif.Props.C05
